@@ -31,6 +31,7 @@ MainRegTy == <<"i", "i", "i", "i", "i", "i", "i", "i", "i", "i", "i", "d", "d", 
 Reg(r) == [k |-> "reg", r |-> r]
 Imm(w) == [k |-> "imm", w |-> w]
 DRef == [k |-> "dref", b |-> 2]       \* address of the module's bss item gdat (memory block 2)
+DRef4 == [k |-> "dref", b |-> 4]      \* address of main's label-reference section lr_main: one 8-byte lref item per lref1/lref2 slot
 DRef3 == [k |-> "dref", b |-> 3]      \* address of the data section gd: data i32 11, -2, 2147483647 ; (anonymous) data i64 5
 Mem(ty, disp, base, idx, scale) == [k |-> "mem", ty |-> ty, disp |-> disp, base |-> base, idx |-> idx, scale |-> scale, al |-> ""]
 (* memory operand with an alias name: accesses with different non-empty alias names are promised not to overlap *)
@@ -176,16 +177,16 @@ Fmts == {"d", "f", "ld"}
 Pfx(fmt) == fmt
 
 KindsInt == {"ibin", "iun", "shift", "div", "br2", "br1", "loop", "ovf", "switch", "callg1", "callg2", "ext", "alloca", "jmpi", "idx",
-             "pld", "pst", "alloca2", "gcall", "dload"}
+             "pld", "pst", "alloca2", "gcall", "dload", "lref1", "lref2"}
 KindsFp == {"fbin", "fcmp", "fbr", "i2f", "f2i", "fmovm", "f2f", "callg3"}
 (* "link": the constructs MIR_link rewrites (calls to inline, allocas, jumps and branch chains, memory operands) *)
 KindsLink == {"callg1", "callg2", "callg3", "ext", "alloca", "br2", "br1", "loop", "switch", "ibin", "idx", "jmpi", "ovf", "calla",
-              "callg6", "callg7", "gcall", "rblk", "blkv", "alloca2"}
+              "callg6", "callg7", "gcall", "rblk", "blkv", "alloca2", "lref1", "lref2"}
 KindsOf == IF Vocab = "int" THEN KindsInt ELSE IF Vocab = "link" THEN KindsLink
          ELSE IF Vocab = "exec" THEN {"callg1", "callg2", "callg3", "calla", "ext", "icall", "icall5", "cb", "jmpi", "switch", "br2", "loop",
-                                      "ibin", "alloca", "fbin", "idx", "callg6", "callg7", "gcall", "rblk", "blkv", "callg12", "callg13", "callg14", "fmovm"}
+                                      "ibin", "alloca", "fbin", "idx", "callg6", "callg7", "gcall", "rblk", "blkv", "callg12", "callg13", "callg14", "fmovm", "lref1", "lref2"}
          ELSE IF Vocab = "single" THEN (KindsInt \cup KindsFp \cup {"calla", "callg6", "callg7", "rblk", "blkv", "callg12", "callg13",
-                                                                      "callg14", "icall", "icall5"}) \ {"callg3"}   \* functions with at most one result
+                                                                      "callg14", "icall", "icall5"}) \ {"callg3", "lref1", "lref2"}   \* functions with at most one result
          ELSE KindsInt \cup KindsFp \cup {"calla", "callg6", "callg7", "rblk", "blkv", "callg12", "callg13", "callg14"}
 NeedFull == {"pld", "pst", "gcall"}
 Kinds == (IF Lean THEN KindsOf \ NeedFull ELSE KindsOf)
@@ -207,6 +208,8 @@ Holes(k) ==
     [] k = "ext" -> <<"ireg", "extid", "isrc">>
     [] k = "alloca" -> <<"asize", "isrc", "ireg">>
     [] k = "jmpi" -> <<"fwd">>
+    [] k = "lref1" -> <<"fwd">>
+    [] k = "lref2" -> <<"fwd", "anyslot">>
     [] k = "idx" -> <<"isrcreg", "imemty", "ireg", "scale">>
     [] k = "fbin" -> <<"fmt", "fop", "fdst", "fsrc", "fsrc">>
     [] k = "fcmp" -> <<"fmt", "fcmp", "ireg", "fsrc", "fsrc">>
@@ -240,7 +243,7 @@ Dom(h) ==
     [] h = "cnt" -> {Imm(FromNat(n)) : n \in {0, 1, 5, 31}} \cup (IF cur.vals[1] \in Shifts64 THEN {Imm(FromNat(n)) : n \in {32, 63}} ELSE {})
     [] h = "divop" -> Divs
     [] h = "brop" -> IntBranch [] h = "br1op" -> Br1
-    [] h = "fwd" -> FwdSlots [] h = "back" -> BackSlots
+    [] h = "fwd" -> FwdSlots [] h = "back" -> BackSlots [] h = "anyslot" -> FwdSlots \cup BackSlots
     [] h = "ovfop" -> IntOvf
     [] h = "ovfbr" -> {b \in OvfBr : FlagDefined(cur.vals[1], b)}
     [] h = "extid" -> {Imm(FromNat(n)) : n \in 1..3}
@@ -260,6 +263,9 @@ Dom(h) ==
 
 (* instruction records of a filled template; labels are SLOT numbers until Finalize *)
 NextSlot == slot + 1
+HasField(I, f) == f \in DOMAIN I
+LrIdx == {i \in 1..Len(body) : HasField(body[i], "lr")}      \* the jmpi insns that own an lref item, in order
+NLr == Cardinality(LrIdx)
 Render(k, v) ==
   CASE k = "ibin" -> <<InsIn(v[1], v[2], <<v[3], v[4]>>)>>
     [] k = "iun" -> <<InsIn(v[1], v[2], <<v[3]>>)>>
@@ -281,6 +287,13 @@ Render(k, v) ==
                          InsIn("mov", Mem("i32", 4, PA, 0, 1), <<Imm(FromNat(77))>>),
                          InsIn("add", v[3], <<Mem("i64", 8, PA, 0, 1), Mem("u32", 4, PA, 0, 1)>>)>>
     [] k = "jmpi" -> <<[op |-> "laddr", d |-> Reg(RTMP2), l |-> v[1]], [op |-> "jmpi", s |-> <<Reg(RTMP2)>>]>>
+    \* computed jumps through label-reference data items of the function: the n-th lref slot owns bytes 8n..8n+7 of section lr_main;
+    \* lref1: item `lref target` holds the label address; lref2: item `lref target, base` holds the distance from label base
+    [] k = "lref1" -> <<InsIn("mov", Reg(RTMP), <<DRef4>>), InsIn("mov", Reg(RTMP2), <<Mem("i64", 8 * NLr, RTMP, 0, 1)>>),
+                        [op |-> "jmpi", s |-> <<Reg(RTMP2)>>, lr |-> [l |-> v[1], l2 |-> 0]]>>
+    [] k = "lref2" -> <<[op |-> "laddr", d |-> Reg(RTMP2), l |-> v[2]], InsIn("mov", Reg(RTMP), <<DRef4>>),
+                        InsIn("mov", Reg(RTMP), <<Mem("i64", 8 * NLr, RTMP, 0, 1)>>), InsIn("add", Reg(RTMP2), <<Reg(RTMP2), Reg(RTMP)>>),
+                        [op |-> "jmpi", s |-> <<Reg(RTMP2)>>, lr |-> [l |-> v[1], l2 |-> v[2]]]>>
     [] k = "idx" -> <<InsIn("and", Reg(RTMP), <<v[1], Imm(FromNat(3))>>),
                       InsIn("mov", v[3], <<Mem(v[2], 128, RBUF, RTMP, v[4])>>)>>
     [] k = "fbin" -> <<InsIn(v[1] \o v[2], v[3], <<v[4], v[5]>>)>>
@@ -386,12 +399,21 @@ CloseSlot ==
   /\ haveA' = (haveA \/ cur.kind = "alloca")
   /\ UNCHANGED <<phase, inputs>> /\ UNCHANGED mvars
 
-HasField(I, f) == f \in DOMAIN I
 Resolve(I) ==
   LET I1 == IF HasField(I, "l") THEN [I EXCEPT !.l = slotpc[@]] ELSE I
-  IN IF HasField(I1, "ls") THEN [I1 EXCEPT !.ls = [i \in 1..Len(@) |-> slotpc[@[i]]]] ELSE I1
+      I2 == IF HasField(I1, "lr") THEN [I1 EXCEPT !.lr = [l |-> slotpc[@.l], l2 |-> IF @.l2 = 0 THEN 0 ELSE slotpc[@.l2]]] ELSE I1
+  IN IF HasField(I2, "ls") THEN [I2 EXCEPT !.ls = [i \in 1..Len(@) |-> slotpc[@[i]]]] ELSE I2
+LrSeq == LET RECURSIVE Coll(_, _)
+             Coll(i, acc) == IF i > Len(body) THEN acc
+                             ELSE Coll(i + 1, IF HasField(body[i], "lr") THEN Append(acc, Resolve(body[i]).lr) ELSE acc)
+         IN Coll(1, <<>>)
+LrCells == LET RECURSIVE Cat(_, _)
+               Cat(i, acc) == IF i > Len(LrSeq) THEN acc
+                              ELSE Cat(i + 1, acc \o [j \in 1..8 |-> IF LrSeq[i].l2 = 0 THEN [k |-> "l", i |-> j, f |-> 1, l |-> LrSeq[i].l]
+                                                                       ELSE [k |-> "ld", i |-> j, f |-> 1, a |-> LrSeq[i].l, b |-> LrSeq[i].l2]])
+           IN Cat(1, <<>>)
 MainFunc ==
-  [name |-> "main", params |-> <<"p">>, res |-> <<"i64">>, regty |-> MainRegTy,
+  [name |-> "main", params |-> <<"p">>, res |-> <<"i64">>, regty |-> MainRegTy, lrefs |-> LrSeq,
    insns |-> Prologue \o [i \in 1..Len(body) |-> Resolve(body[i])] \o Epilogue]
 Finalize ==
   /\ phase = "build" /\ slot = NSlots + 1 /\ cur.kind = ""
@@ -401,9 +423,10 @@ Finalize ==
               [sz |-> 64, live |-> TRUE, cells |-> [i \in 1..64 |-> ByteC(0)]],          \* block 2: the module's bss item gdat
               [sz |-> 20, live |-> TRUE,                                                    \* block 3: data section gd
                cells |-> [i \in 1..20 |-> ByteC((<<11, 0, 0, 0>> \o <<254, 255, 255, 255>> \o <<255, 255, 255, 127>>
-                                                 \o <<5, 0, 0, 0, 0, 0, 0, 0>>)[i])]]>>
+                                                 \o <<5, 0, 0, 0, 0, 0, 0, 0>>)[i])]],
+              [sz |-> 8 * Len(LrSeq), live |-> TRUE, cells |-> LrCells]>>               \* block 4: main's lref section lr_main
   /\ frames' = <<[f |-> 1, pc |-> 1, regs |-> [r \in 1..Len(MainRegTy) |-> IF r = 1 THEN PtrV(1, 0) ELSE UndefV],
-                  base |-> 3, ovf |-> NoOvf]>>
+                  base |-> 4, ovf |-> NoOvf]>>
   /\ status' = "run"
   /\ UNCHANGED <<log, why, result, steps, slot, cur, body, slotpc, inputs, haveA>>
 
@@ -439,5 +462,5 @@ RegsTyped ==
   status = "run" =>
     \A i \in 1..Len(frames) : \A r \in 1..Len(frames[i].regs) :
       LET v == frames[i].regs[r]  ty == prog.funcs[frames[i].f].regty[r] IN
-      v.t = "u" \/ (ty = "i" /\ v.t \in {"i", "p", "l", "fn"}) \/ (ty # "i" /\ v.t = "f" /\ InFmt(v.x, ty))
+      v.t = "u" \/ (ty = "i" /\ v.t \in {"i", "p", "l", "fn", "ld"}) \/ (ty # "i" /\ v.t = "f" /\ InFmt(v.x, ty))
 =============================================================================
